@@ -277,5 +277,50 @@ func checkC05(t *testing.T, job *Job, res *Result) {
 		b = Bounds{D: 3, S: 0}
 	}
 	res.Rule = "engine S part: 2-3 concurrent deploys of different services whose bindings overlap (identical host, default host, one shared of several, shared path, wildcard, owned by a third service, redeploy moving onto the pair); every schedule within the bounds; oracle: successful deploys pairwise conflict-free, every rejection justified by a successful owner, every owned pair routes to its owner, losers leave nothing routed, list = winners"
-	runS(t, job, res, "C05", scs, b, 0)
+	if job.Replay == nil || job.Replay.Engine == "S" {
+		runS(t, job, res, "C05", scs, b, 0)
+	}
+	if job.Replay == nil || job.Replay.Engine == "H" {
+		exploreH(t, job, res, c05HSpec(tier))
+	}
+	res.Engine = "S+H"
+	res.Rule += "; engine H part: every history up to the depth bound over deploy/redeploy/remove of three services with bindings from {default, a.example.com, *.example.com, a+b} x {/, /api, /+/api}; oracle: reference ownership map predicts each result (nil or host-in-use) and every cell of the routing matrix"
+}
+
+func c05HSpec(tier string) *HSpec {
+	hosts := []string{"-", "a.example.com", "*.example.com", "a.example.com,b.example.com"}
+	paths := []string{"/", "/api"}
+	depth := 3
+	if tier == "thorough" {
+		paths = append(paths, "/,/api")
+		depth = 4
+	}
+	names := []string{"s1", "s2", "s3"}
+	var alpha []string
+	for _, n := range names {
+		for _, h := range hosts {
+			for _, p := range paths {
+				alpha = append(alpha, fmt.Sprintf("deploy %s h=%s p=%s", n, h, p))
+			}
+		}
+		alpha = append(alpha, "remove "+n)
+	}
+	return &HSpec{
+		Prop: "C05", Name: "C05-H", Depth: depth,
+		Alphabet: func(m *Model, d int) []string {
+			if d == 0 {
+				// symmetry: the first command deploys s1 (names are interchangeable)
+				var res []string
+				for _, a := range alpha {
+					if strings.HasPrefix(a, "deploy s1") {
+						res = append(res, a)
+					}
+				}
+				return res
+			}
+			return alpha
+		},
+		Obs: ObsSpec{Hosts: []string{"a.example.com", "b.example.com:8080", "x.example.com", "other.org"}, Paths: []string{"/", "/api", "/api/x", "/apiary"}, Cookies: []string{""}, TLS: []bool{false}},
+		Clauses: map[string]bool{"routing": true, "target-set": true, "list": true, "gate": true, "tls-policy": true},
+	}
 }
